@@ -14,7 +14,7 @@ TORCH_INC = '/venv/lib/python3.12/site-packages/torch/include'
 
 
 def tree_hash(src, flavour):
-    h = hashlib.sha256(flavour.encode())
+    h = hashlib.sha256((flavour + '|v2').encode())
     files = []
     for sub, pats in (('src', ('*.cpp',)), ('src/treespec', ('*.cpp',)), ('include/optree', ('*.h',)),
                       ('optree', ('*.py', '*.pyi')), ('optree/integration', ('*.py',))):
@@ -25,6 +25,19 @@ def tree_hash(src, flavour):
         with open(f, 'rb') as fh:
             h.update(fh.read())
     return h.hexdigest()[:16]
+
+
+_PYCFG = None
+
+
+def pycfg():
+    """include dir and extension suffix of the interpreter the checks run optree with (/venv/bin/python), whatever runs this script"""
+    global _PYCFG
+    if _PYCFG is None:
+        out = subprocess.run([PY, '-c', "import sysconfig;print(sysconfig.get_path('include'));print(sysconfig.get_config_var('EXT_SUFFIX'))"],
+                             capture_output=True, text=True, check=True).stdout.split()
+        _PYCFG = (out[0], out[1])
+    return _PYCFG
 
 
 def build(src='/repo', asan=False, quiet=True):
@@ -47,7 +60,7 @@ def build(src='/repo', asan=False, quiet=True):
         os.makedirs(pkg)
         objdir = os.path.join(out, 'obj')
         os.makedirs(objdir)
-        pyinc = sysconfig.get_path('include')
+        pyinc, ext_suffix = pycfg()
         if asan:
             cxx = ['clang++-14' if shutil.which('clang++-14') else 'clang++', '-O1', '-g', '-fno-omit-frame-pointer',
                    '-fsanitize=address,undefined', '-fno-sanitize=vptr,function', '-fno-sanitize-recover=undefined']
@@ -67,7 +80,7 @@ def build(src='/repo', asan=False, quiet=True):
             if p.returncode != 0:
                 sys.stderr.write(outp.decode(errors='replace'))
                 raise SystemExit(f'build failed: {c}')
-        so = os.path.join(pkg, '_C' + sysconfig.get_config_var('EXT_SUFFIX'))
+        so = os.path.join(pkg, '_C' + ext_suffix)
         link = cxx + ['-shared', '-o', so] + objs
         r = subprocess.run(link, stdout=subprocess.PIPE, stderr=subprocess.STDOUT)
         if r.returncode != 0:
